@@ -96,8 +96,8 @@ type access struct {
 
 type shadow struct {
 	w  access
-	wh hv // history hash of the last writer at its write
-	r []access // last read per thread since the last write
+	wh hv       // history hash of the last writer at its write
+	r  []access // last read per thread since the last write
 }
 
 // Point is one scheduling decision.
@@ -377,6 +377,15 @@ func Observe(x uint64) {
 		return
 	}
 	s.cur.h = s.cur.h.fold('O').fold(x)
+}
+
+// ObserveObj folds the identity of the releases stored in o into the current
+// thread's history without acquiring them.
+func ObserveObj(o *SyncObj) {
+	if s == nil {
+		return
+	}
+	s.cur.h = s.cur.h.fold('P').foldH(o.rel)
 }
 
 // SyncPoint is a scheduling point before a synchronisation operation.
